@@ -82,6 +82,15 @@ def clearSyntax (s : St) (f : File) : St :=
 /-- didOpen (the analysis ran only if the file was new to the workspace; an unchanged map is a no-op) -/
 def evOpen (s : St) (f : File) (new : EMap) : St := clearChange (pushAll s new) f
 
+/-- didOpen in general: `edit` = none when the opened text is the file's, else the syntax errors of the opened
+    text, which is then analysed like an unsaved edit (code order: pushAll; errors → InsertChangeFileErr and
+    return; none → ClearFileSyntaxErr, then ClearChangeFileErr) -/
+def evOpenWith (s : St) (f : File) (new : EMap) (edit : Option (List Err)) : St :=
+  match edit with
+  | none => evOpen s f new
+  | some errs =>
+    if errs.isEmpty then clearChange (clearSyntax (pushAll s new) f) f else insertChange (pushAll s new) f errs
+
 /-- didChange: `errs` = the syntax errors of the new buffer -/
 def evChange (s : St) (f : File) (errs : List Err) : St :=
   if errs.isEmpty then clearSyntax (clearChange s f) f else insertChange s f errs
